@@ -12,7 +12,7 @@
    atomic read of the file, so it is an operation whose body does not change the shared component; it can
    be placed anywhere in the serial order and the writers' serializability (C09) is unaffected. *)
 From Coq Require Import List Bool Arith.
-From SC Require Import Model.Conc Proofs.ConcMutex Proofs.ConcFaults.
+From SC Require Import Model.Conc Proofs.ConcMutex Proofs.ConcFaults Model.Suspend Proofs.SuspendProofs.
 Import ListNotations.
 
 (* a lock-free reader, modelled as a program with NO lock events, cannot leak or deadlock *)
@@ -43,8 +43,14 @@ Theorem C14_read_sees_a_real_state : forall (S R Lc : Type) (s0 : nat -> S) (ths
 Proof. exact mutex_serializable_per_lock. Qed.
 Print Assumptions C14_read_sees_a_real_state.
 
-(* REFUTATION of the full statement in the model: a reader that shares the writer's suspend counter makes
-   the writer skip its save.  Model: the writer's save is guarded by a counter the reader increments. *)
-Definition d18_writer_saves (reader_inside : bool) : bool := negb reader_inside.
-Example C14_refuted_shared_suspend : exists reader_inside, d18_writer_saves reader_inside = false.
-Proof. exists true. reflexivity. Qed.
+(* REFUTATION of the full statement (known finding D18), in an executable model of exactly the code paths
+   involved (Model/Suspend.v): reader and writer on ONE object share the suspend counter; in the interleaving
+   "reader enters its suspended section — the writer's whole operation — reader merges" the writer's load
+   and save are both skipped and the reader's merge removes the change from memory: the update is lost
+   although the writer returned.  The K3 scheduler replays this on the real code on every run (D18 probe). *)
+Theorem C14_refuted_same_object :
+  exists c k v sched,
+    sched = [RCheckAndRead; RSuspendInc; WLoad; WMutate k v; WSave; RMerge; RSuspendDec]
+    /\ lost (run (init c) sched) k v = true.
+Proof. exact d18_lost_update. Qed.
+Print Assumptions C14_refuted_same_object.
